@@ -260,6 +260,14 @@ def main():
              rel(m_L, fs.total_propagator_liouville))
         note(tag + ' t vs from scratch', rel(m_t, fs.t))
         note(tag + ' tau vs from scratch', rel(m_tau, fs.tau))
+        # whatever the result of concatenate_periodic carries or computes lazily for its own segments:
+        # cumulative propagators and eigen-decomposition of the tiled pulse (read LAST: the getters may
+        # diagonalize the result)
+        note(tag + ' result.propagators vs from scratch', rel(per.propagators, fs.propagators))
+        Hper = np.einsum('ijk,il->ljk', per.c_opers, per.c_coeffs)
+        res = max(float(np.max(np.abs(Hper[g] @ per.eigvecs[g] - per.eigvecs[g]*per.eigvals[g][None, :])))
+                  for g in range(len(per.dt)))
+        note(tag + ' result eigen-decomposition residual', res/max(1.0, float(np.max(np.abs(Hper)))))
         # the statements of propagators_tile / times_tile on the real package
         Qn = p.total_propagator
         for kk in range(G):
@@ -348,6 +356,7 @@ def main():
         note('concatenate total_propagator vs from scratch', rel(m_Q, fs.total_propagator))
         note('concatenate t vs from scratch', rel(m_t, fs.t))
         note('concatenate tau vs from scratch', rel(m_tausum, fs.tau))
+        note('concatenate result.propagators vs from scratch', rel(new.propagators, fs.propagators))
         # statements of propagators_concat / times_concat on the real package
         off, Qprev, tprev = 0, np.eye(d), 0.0
         for pl in pulses:
